@@ -18,7 +18,7 @@ Inductive op :=
 | OSwap (depth : nat)                              (* swapRanks(depth) *)
 | OSwapSwap (depth : nat)                          (* twice *)
 | OFlatten (depth levels : nat) (style : Z)        (* flattenRanks: tuple / pair / linear *)
-| OMerge (depth levels : nat) (style : Z)          (* mergeRanks: absolute / relative, sum *)
+| OMerge (depth levels : nat) (style mfn : Z)      (* mergeRanks: absolute / relative; merge_fn sum / max / min *)
 | OFlatUnflat (depth levels : nat) (style : Z)     (* unflattenRanks(flattenRanks): tuple / pair *)
 | OSplitFlat (depth : nat) (step : Z).             (* flattenRanks(absolute) of splitUniform(step) *)
 
@@ -58,13 +58,13 @@ Fixpoint enc_ct (pair : bool) (t : ct) : V :=
 
 Definition op_pair (o : op) : bool :=
   match o with
-  | OFlatten _ _ s | OMerge _ _ s => s =? st_pair
+  | OFlatten _ _ s | OMerge _ _ s _ => s =? st_pair
   | _ => false
   end.
 
 Definition out_depth (c : c09_case) : nat :=
   match k_op c with
-  | OFlatten _ l _ | OMerge _ l _ => (k_n c - l)%nat
+  | OFlatten _ l _ | OMerge _ l _ _ => (k_n c - l)%nat
   | _ => k_n c
   end.
 
@@ -99,7 +99,7 @@ Definition c09_run (c : c09_case) : option cfib :=
   | OSwap depth => t_swap depth fuel d es
   | OSwapSwap depth => obind (t_swap depth fuel d es) (t_swap depth fuel d)
   | OFlatten depth levels style => t_merge depth levels style true fuel sh d es
-  | OMerge depth levels style => t_merge depth levels style false fuel sh d es
+  | OMerge depth levels style mfn => t_merge_f mfn depth levels style false fuel sh d es
   | OFlatUnflat depth levels style =>
       obind (t_merge depth levels style true fuel sh d es) (t_unflatten depth levels d)
   | OSplitFlat depth step =>
@@ -165,6 +165,20 @@ Definition content_ok (d : Z) (img : point -> point) (src out : list (point * Z)
   && forallb (fun pv => (sums_to img src (img (fst pv)) =? d)
                         || existsb (fun qv => pt_eqb (fst qv) (img (fst pv))) out) src.
 
+(* the same with the merge function of the case (max / min) instead of the sum: the value of an
+   image point is the reduction of the values of exactly the operand points that map to it *)
+Definition reds_to (mfn : Z) (img : point -> point) (src : list (point * Z)) (q : point) : Z :=
+  redv mfn (map snd (filter (fun pv => pt_eqb (img (fst pv)) q) src)).
+
+Definition content_okf (mfn d : Z) (img : point -> point) (src out : list (point * Z)) : bool :=
+  forallb (fun qv => existsb (fun pv => pt_eqb (img (fst pv)) (fst qv)) src
+                     && (snd qv =? reds_to mfn img src (fst qv))) out
+  && forallb (fun pv => (reds_to mfn img src (img (fst pv)) =? d)
+                        || existsb (fun qv => pt_eqb (fst qv) (img (fst pv))) out) src.
+
+Definition content_okg (mfn d : Z) (img : point -> point) (src out : list (point * Z)) : bool :=
+  if mfn =? mf_sum then content_ok d img src out else content_okf mfn d img src out.
+
 Fixpoint sum_coords (cs : list coord) : Z :=
   match cs with [] => 0 | c :: cs' => hd 0 c + sum_coords cs' end.
 
@@ -190,7 +204,7 @@ Definition op_img (c : c09_case) : point -> point :=
   match k_op c with
   | OSwizzle perm => permute_key perm
   | OSwap depth => img_swap depth
-  | OFlatten depth levels style | OMerge depth levels style =>
+  | OFlatten depth levels style | OMerge depth levels style _ =>
       img_flatten depth levels style (k_shape c)
   | _ => fun p => p
   end.
@@ -213,9 +227,10 @@ Definition op_ok (c : c09_case) : bool :=
   | OFlatten depth levels style =>
       Nat.ltb 0 levels && Nat.ltb (depth + levels) n
       && ((style =? st_tuple) || (style =? st_pair) || (style =? st_linear))
-  | OMerge depth levels style =>
+  | OMerge depth levels style mfn =>
       Nat.ltb 0 levels && Nat.ltb (depth + levels) n
       && ((style =? st_absolute) || (style =? st_relative)) && (k_d c =? 0)
+      && ((mfn =? mf_sum) || (mfn =? mf_max) || (mfn =? mf_min))
   | OFlatUnflat depth levels style =>
       Nat.ltb 0 levels && Nat.ltb (depth + levels) n
       && ((style =? st_tuple) || (style =? st_pair))
@@ -227,6 +242,9 @@ Definition c09_wf (c : c09_case) : bool :=
   Nat.ltb 1 (k_n c) && negb (is_leaf t)
   && cdepth_ok (k_n c) t && csorted t && cints t && cin_shape (k_shape c) t && op_ok c.
 
+Definition op_mfn (c : c09_case) : Z :=
+  match k_op c with OMerge _ _ _ mfn => mfn | _ => mf_sum end.
+
 Definition c09_holds (c : c09_case) (o : V) : bool :=
   c09_wf c &&
   match o with
@@ -234,70 +252,16 @@ Definition c09_holds (c : c09_case) (o : V) : bool :=
     match dec_ct (op_pair (k_op c)) tv, dec_counts cv with
     | Some t', Some counts =>
       out_wf c t' counts
-      && content_ok (k_d c) (op_img c) (ccontent (k_d c) (inj (k_tree c))) (ccontent (k_d c) t')
+      && content_okg (op_mfn c) (k_d c) (op_img c) (ccontent (k_d c) (inj (k_tree c))) (ccontent (k_d c) t')
     | _, _ => false
     end
   | _ => false                       (* inside the domain an exception is not a legal outcome *)
   end.
 
-(* known-finding region 1 (F-C09-merge-3way): mergeRanks where _mergeToFibertree merges three or
-   more colliding payload fibers that have at least two ranks below them and, at some coordinate
-   of the (nested, left-associated) union, the first two operands are both absent: the
-   placeholder operands the union then creates come from the default of a lazy fiber and do not
-   know their own default (None), and one level further down the default merge_fn adds None
-   (TypeError).  [bad_tf] follows _mergeToFibertree's recursion ([rb] = ranks below the payloads),
-   [bad_helper] follows _mergeRanksHelper's, and the region looks at every fiber the Below
-   descent visits.  The region only matters for cases on which the oracle is false. *)
-Definition is_none {A} (o : option A) : bool := match o with None => true | Some _ => false end.
-
-Fixpoint bad_tf (fuel rb : nat) (d : Z) (ps : list ct) : bool :=
-  match fuel with
-  | O => false
-  | S fuel' =>
-    Nat.leb 2 rb && Nat.leb 3 (length ps) &&
-    (let fs := map sub ps in
-     let cs := union_coords d fs in
-     let pick c f := match clookup c (cpresent d f) with Some p => p | None => CN [] end in
-     existsb (fun c => forallb (fun f => is_none (clookup c (cpresent d f))) (firstn 2 fs)) cs
-     || existsb (fun c => bad_tf fuel' (rb - 1) d (map (pick c) fs)) cs)
-  end.
-
-Fixpoint bad_helper (levels : nat) (style : Z) (fuel rb : nat) (shapes : list Z) (d : Z) (es : cfib) : bool :=
-  match levels with
-  | O => false
-  | S l' =>
-    (match l' with
-     | O => false
-     | S _ => existsb (fun cp => bad_helper l' style fuel rb (tl shapes) d (sub (snd cp))) es
-     end)
-    ||
-    (let cur :=
-       match l' with
-       | O => Some es
-       | S _ => all_some (map (fun cp =>
-                  match snd cp with
-                  | CN s => option_map (fun r => (fst cp, CN r))
-                              (merge_helper l' style false fuel (tl shapes) d s)
-                  | CL _ => None
-                  end) es)
-       end in
-     match cur with
-     | None => false
-     | Some cur =>
-       existsb (fun g => bad_tf fuel rb d (snd g))
-               (group_items (merge_items style (prodZ (firstn levels (tl shapes))) d cur))
-     end)
-  end.
-
-Definition c09_region (c : c09_case) : Z :=
-  match k_op c with
-  | OMerge depth levels style =>
-    let rb := (out_depth c - depth - 1)%nat in
-    if existsb (bad_helper levels style (S (k_n c)) rb (skipn depth (k_shape c)) (k_d c))
-               (clevel depth (inj (k_tree c)))
-    then 1 else 0
-  | _ => 0
-  end.
+(* no known-finding region: F-C09-merge-3way (placeholder operands of the nested union) is gone
+   with fix S51 (_mergeToFibertree merges only the payloads of the fibers that have the
+   coordinate), which is the code the model transcribes *)
+Definition c09_region (c : c09_case) : Z := 0.
 
 Definition c09_checker : checker c09_case :=
   {| model := c09_model; holds := c09_holds; region := c09_region |}.
